@@ -318,7 +318,7 @@ def main(argv):
     prop = load_prop(pid)
     sys.setrecursionlimit(5000)
     child_out = argv[argv.index("--out") + 1] if "--out" in argv else None
-    configs = getattr(prop, "CONFIGS", None)
+    configs = getattr(prop, "CONFIGS", None) or (getattr(prop, "CONFIGS_THOROUGH", None) if tier == "thorough" else None)
     if configs and "--config" not in argv:
         return run_configs(pid, tier, seed, prop, configs, t0)
 
